@@ -29,7 +29,8 @@ RULE = ("a BD object is used for 1-3 consecutive precodings (object re-used, "
         "The driver records the requested metric / stream count (the contract "
         "compares them with what is in force) and reconfigures the same object "
         "between rounds. "
-        "Ext-int channels carry a per-link path loss in 40 % of the cases and the solution is judged on big_H (what corrupt_data applies), not on the view the solver reads; other configured EnhancedBD objects are kept alive next to the one under test. ")
+        "Ext-int channels carry a per-link path loss in 40 % of the cases and the solution is judged on big_H (what corrupt_data applies), not on the view the solver reads; other configured EnhancedBD objects are kept alive next to the one under test. "
+        "The ext-int designs are judged against the channel the DRIVER configured (raw matrix x last path loss), which big_H must equal; 40 % of the second rounds set a new path loss. ")
 ASSUMPTIONS = [
     "a stream counts as 'given power' when its effective gain sqrt(p)*sigma "
     "exceeds 1e-10 of the largest one (pinv discards below 1e-15: the zone in "
@@ -118,7 +119,7 @@ def check_receive(ctx, W, Heff, origin):
                         "powered": powered})
 
 
-EXPECT = {"metric": None, "num_streams": None}     # what the driver last asked for
+EXPECT = {"metric": None, "num_streams": None, "big_H": None}     # what the driver last asked for
 
 
 def post_extint(ctx, args, kwargs, result):
@@ -131,6 +132,16 @@ def post_extint(ctx, args, kwargs, result):
     # the channel the users really see (what corrupt_data applies), restricted to
     # the users' own transmitters -- not the view the solver itself reads
     Hb = Hfull[:, :int(np.sum(Nt))]
+    if EXPECT.get("big_H") is not None:
+        # ... and that channel is the one the driver configured (raw matrix and the
+        # path loss set LAST), not a stale copy
+        Hx = EXPECT["big_H"]
+        ok_ch = Hx.shape == Hfull.shape and fro(Hx - Hfull) <= 64 * EPS * (fro(Hx) + 1e-300)
+        ctx.ev("stream-counts", ok_ch, cls="channel-object-shows-a-stale-channel",
+               detail=lambda: {"big_H": Hfull, "configured": Hx})
+        if ok_ch:
+            Hfull = Hx
+            Hb = Hfull[:, :int(np.sum(Nt))]
     ctx.ev("stream-counts", np.shape(mu.big_H_no_ext_int) == Hb.shape and
            np.array_equal(np.asarray(mu.big_H_no_ext_int), Hb), cls="no-ext-int-view-of-big_H",
            detail=lambda: {"big_H": Hfull, "big_H_no_ext_int": np.asarray(mu.big_H_no_ext_int)})
@@ -315,12 +326,32 @@ def make_mu(rng, K, nant, NtE, noise, gclass="balanced"):
     mu.init_from_channel_matrix(H, np.full(K, nant), np.full(K, nant), K,
                                 NtE if len(NtE) > 1 else int(NtE[0]))
     mu.noise_var = noise
+    LAST_PL[0] = None
     if rng.random() < 0.4:
         # large-scale fading on top: per-link path loss, also towards the
         # external sources
-        mu.set_pathloss(10.0 ** rng.uniform(-2, 0, size=(K, K)),
-                        10.0 ** rng.uniform(-2, 0, size=(K, len(NtE))))
+        pl = (10.0 ** rng.uniform(-2, 0, size=(K, K)),
+              10.0 ** rng.uniform(-2, 0, size=(K, len(NtE))))
+        mu.set_pathloss(pl[0].copy(), pl[1].copy())
+        LAST_PL[0] = pl
     return mu, H
+
+
+LAST_PL = [None]
+
+
+def expected_big_H(H, K, nant, NtE, pl):
+    """The channel as the HARNESS configured it: raw matrix times sqrt(path loss)."""
+    if pl is None:
+        return np.array(H, copy=True)
+    out = np.array(H, dtype=complex, copy=True)
+    cols = [nant] * K + list(NtE)
+    cc = np.hstack([0, np.cumsum(cols)])
+    full = np.hstack([pl[0], pl[1]])
+    for k in range(K):
+        for j in range(len(cols)):
+            out[k * nant:(k + 1) * nant, cc[j]:cc[j + 1]] *= math.sqrt(full[k, j])
+    return out
 
 
 KEEP = []          # other configured objects kept alive across cases
@@ -370,6 +401,7 @@ def case_extint(ctx, rng, idx):
             del KEEP[:-4]
     EXPECT["metric"] = metric if metric != "whitening" else None
     EXPECT["num_streams"] = (extra or {}).get("num_streams")
+    EXPECT["big_H"] = expected_big_H(H, K, nant, NtE, LAST_PL[0])
     d = {"K": K, "nant": nant, "NtE": NtE, "metric": metric,
          "extra": {k: (v if isinstance(v, int) else repr(v)) for k, v in (extra or {}).items()},
          "Pu": Pu, "noise": noise, "pe": pe}
@@ -382,6 +414,14 @@ def case_extint(ctx, rng, idx):
             bd.iPu = 10.0 ** rng.uniform(-2, 2)
             if rng.random() < 0.5:
                 mu.randomize(nant, nant, K, NtE if len(NtE) > 1 else int(NtE[0]))
+                EXPECT["big_H"] = None          # (a channel the harness does not know)
+            if rng.random() < 0.4:
+                # new large-scale fading on the same channel object
+                pl2 = (10.0 ** rng.uniform(-2, 0, size=(K, K)),
+                       10.0 ** rng.uniform(-2, 0, size=(K, len(NtE))))
+                mu.set_pathloss(pl2[0].copy(), pl2[1].copy())
+                if EXPECT["big_H"] is not None:
+                    EXPECT["big_H"] = expected_big_H(H, K, nant, NtE, pl2)
             d2 = {**d, "round": 2}
             if metric != "whitening" and rng.random() < 0.6:
                 # the same object is reconfigured: same metric with another
@@ -401,7 +441,7 @@ def case_extint(ctx, rng, idx):
         ctx.sample("extint:" + metric, d)
     finally:
         monitors.ACTIVE[0] = None
-        EXPECT["metric"] = EXPECT["num_streams"] = None
+        EXPECT["metric"] = EXPECT["num_streams"] = EXPECT["big_H"] = None
 
 
 def case_bad_metric(ctx, rng, idx):
